@@ -56,7 +56,7 @@ Proof.
   all: intros _; exists s, c; eexists; repeat split; auto.
   all: try (match goal with H : negb (has_grant _ _) = false |- _ => apply negb_false_iff in H; exact H end).
   all: try (match goal with H : negb (contains_all_scopes _ _) = false |- _ => apply negb_false_iff in H; exact H end).
-  all: try (destruct (should_issue_refresh _ _ _); cbn; try (match goal with H : is_empty _ = _ |- _ => rewrite H end); reflexivity).
+  all: try (destruct (should_issue_refresh _ _ _ _); cbn; try (match goal with H : is_empty _ = _ |- _ => rewrite H end); reflexivity).
 Qed.
 
 (* the authorization endpoint starts a session only for a response type the client registered, a
